@@ -10,13 +10,18 @@ MC   : Generate.tla -- walker / dispatcher / semaphore-bounded workers (HandleEv
        names below a near-miss parent; the rule is modelled on the spelling of the names exactly as
        internal/skipdir.ShouldSkip is coded); TLC's deadlock check is ON. Negative configs that TLC must reject:
        UpsertHash without the mutex (NoDataRace), errs closed before the workers finish (NoPanic), main not reading
-       errs (Deadlock), underscore / dot directories not skipped (NothingElseTouched), vendor / node_modules compared
+       errs (Deadlock), a failing worker keeps its semaphore slot (Deadlock), a nondeterministic generator
+       (SecondRunChangesNothing), underscore / dot directories not skipped (NothingElseTouched), vendor / node_modules compared
        with HasSuffix / HasPrefix / case-insensitively, dot / underscore looked for anywhere in the name
        (SiblingEqualsSoloGeneration).
 GEN  : one record per terminated behaviour (tree, flags, predicted tree + exit status after run 1 and run 2) is
        materialised in a scratch directory; the real generatecmd.Run is executed in-process from a -race build with
        W in {1, 2, 8}, twice; the whole tree (presence, bytes, modification time of untouched files) and the error
-       are compared. Generated files are compared with the real parser+generator+gofmt on that file alone.
+       are compared. Generated files are compared with the real parser+generator+gofmt on that file alone, computed
+       at least three times (a generator whose output is not a function of the file is reported as
+       SoloGeneration.NotAFunction); the templates exercise the generator's per-element collections (several different
+       on*/hx-on: handlers, class/css expressions, spread / conditional attributes). Every run has a watchdog; a run
+       that does not return is a violation iff two goroutine dumps confirm the dispatcher blocked on the semaphore.
 VAL  : with the verif hook of cmd/templ/generatecmd present, the worker/write/error events of those runs are
        validated by TLC against spec/TraceGenerate.tla, and the schedule is perturbed at the hook points.
        Without the hook the check says so and works from public observation only.
@@ -50,7 +55,9 @@ def main():
     if thorough:
         mcs = [("TreesProto", 3, "{1, 2, 3}", "TRUE"), ("TreesFocus", 4, "{1, 2, 3}", "TRUE"), ("TreesFour", 4, "{1, 2, 3}", "FALSE")]
     negs = [("mutex", "Generate_neg_mutex.cfg", {}, "NoDataRace"), ("errs", "Generate_neg_errs.cfg", {}, "NoPanic"),
-            ("main", "Generate_neg_main.cfg", {}, "Deadlock")]
+            ("main", "Generate_neg_main.cfg", {}, "Deadlock"),
+            ("slot-not-released-on-error", "Generate_neg_slot.cfg", {}, "Deadlock"),
+            ("nondeterministic-generator", "Generate_neg_nondet.cfg", {}, "SecondRunChangesNothing")]
     for rule, expect in (("nounderscore", "NothingElseTouched"), ("nodot", "NothingElseTouched"),
                          ("suffix", "SiblingEqualsSoloGeneration"), ("prefix", "SiblingEqualsSoloGeneration"),
                          ("foldcase", "SiblingEqualsSoloGeneration"), ("contains", "SiblingEqualsSoloGeneration")):
@@ -132,6 +139,12 @@ def main():
         ck.finish()
     s = vlib.harness_results(ck, p)
     vlib.log("harness done: %d runs" % s["runs"])
+    if s.get("aborted"):
+        # generatecmd.Run hung (confirmed, reported above as a violation); the remaining runs were not executed
+        if not ck._nviol and not ck.known_hit:
+            raise vlib.InfraError("harness aborted without reporting a violation")
+        ck.set("aborted_after_runs", s["runs"])
+        ck.finish()
     want_hooked = 0 if not hooks else (min(max_hooked, len(uniq) * reps) if max_hooked else len(uniq) * reps)
     if s["cases"] != len(uniq) or s["runs"] != s["jobs"] or s["jobs"] != len(uniq) * 3 + want_hooked:
         raise vlib.InfraError("harness executed %s of %d x 3 + %d runs" % (s["runs"], len(uniq), want_hooked))
@@ -142,14 +155,25 @@ def main():
     ck.set("worker_counts", s["worker_counts"])
     ck.set("hooked_runs", s["hooked_runs"] * 2)
     ck.set("hooks_present", hooks)
+    ck.set("second_runs_that_regenerated", s["second_runs_regenerating"])
+    ck.set("watchdog_seconds_per_run", s["watchdog_seconds"])
+    if s["fails"] == 0 and s["second_runs_regenerating"] < len(uniq) // 4:
+        raise vlib.InfraError("only %d second runs rewrote a file: SecondRunChangesNothing is not exercised" % s["second_runs_regenerating"])
+    hang_cases = [c for c in uniq if sum(1 for f in c["files"] if f["c"] in ("unparsable", "badgo") and not f["dir"]) >= 1
+                  and any(f["c"] == "good" for f in c["files"])]
+    hang2 = [c for c in uniq if sum(1 for f in c["files"] if f["c"] in ("unparsable", "badgo") and not f["dir"]) >= 2
+             and any(f["c"] == "good" and f["dir"] == ["d"] for f in c["files"])]
+    if not hang_cases or not hang2:
+        raise vlib.InfraError("the case set lacks trees with as many failing files as workers (W=1: %d, W=2: %d) in front of a good file" % (len(hang_cases), len(hang2)))
+    ck.set("cases_with_failing_files_ge_workers", {"W=1": len(hang_cases), "W=2": len(hang2)})
     if s["error_count_drift"]:
         ck.add("model_drift_cases", s["error_count_drift"])
         ck.notes.append("model drift: the error count in the message differs from the number of failing files in %d runs" % s["error_count_drift"])
 
     if hooks:
-        if s["hook_events"] < 8 * s["hooked_runs"] or s["traced_runs"] == 0:
+        if s["fails"] == 0 and (s["hook_events"] < 8 * s["hooked_runs"] or s["traced_runs"] == 0):
             raise vlib.InfraError("the hook fired only %d times in %d runs" % (s["hook_events"], s["runs"]))
-        if s["perturbations"] == 0:
+        if s["fails"] == 0 and s["perturbations"] == 0:
             raise vlib.InfraError("no schedule perturbation happened")
         trace = open(tpath).read()
         if os.environ.get("VERIF_SELFTEST_CORRUPT") == "2":
